@@ -245,6 +245,36 @@ type c18Op struct {
 	P   string  `json:"p,omitempty"`   // payload: end fwd bad; malformed: json notype nobody
 	T   int     `json:"t,omitempty"`   // done: token
 	R   string  `json:"r,omitempty"`   // done: ok fail timeout
+	// bye, expire: creations that complete while the close of the session is frozen in a window
+	In []c18Slot `json:"in,omitempty"`
+}
+
+// c18Slot: creation T completes with R while ProxySession.Close is in window W:
+//
+//	"list"   removed from the sessions list, Close waits for the session's clientLock (model PhList)
+//	"ctx"    context cancelled, Close waits for publishersLock in clearPublishers (PhCtx)
+//	"subs"   publishers and subscribers cleared, Close waits for remotePublishersLock (PhSubs)
+//	"remote" Close waits in proxy.DeleteSession for the write lock of the sessions list, a reader holds it (PhRemote)
+type c18Slot struct {
+	W string `json:"w"`
+	T int    `json:"t"`
+	R string `json:"r,omitempty"`
+}
+
+var c18Windows = []string{"list", "ctx", "subs", "remote"}
+var c18WindowPhase = map[string]string{"list": "PhList", "ctx": "PhCtx", "subs": "PhSubs", "remote": "PhRemote"}
+var c18ResTerm = map[string]string{"ok": "MOk", "fail": "MFail", "timeout": "MTimeout"}
+
+func c18SlotsTerm(l []c18Slot) string {
+	var s []string
+	for _, x := range l {
+		r := c18ResTerm[x.R]
+		if r == "" {
+			r = "MOk"
+		}
+		s = append(s, fmt.Sprintf("(%s, %d, %s)", c18WindowPhase[x.W], x.T, r))
+	}
+	return coqList(s)
 }
 
 type c18Case struct {
@@ -309,12 +339,13 @@ type c18Run struct {
 	sigtable []string
 	notes    map[string]int
 	msgid    int
+	connSid  map[int]uint64 // session a connection was last welcomed to (from the hello answers)
 }
 
 func c18NewRun(t *testing.T, keys *c18KeySet) *c18Run {
 	h := &c18Run{t: t, keys: keys, conns: map[int]*c18Conn{}, uuidNum: map[string]int{}, numUuid: map[int]string{},
 		pubSid: map[string]uint64{}, sidPub: map[uint64]string{}, texts: map[string]int{}, sigs: map[string]int{},
-		issuers: map[string]int{"iss0": 0, "iss1": 1}, notes: map[string]int{}}
+		issuers: map[string]int{"iss0": 0, "iss1": 1}, notes: map[string]int{}, connSid: map[int]uint64{}}
 	r := mux.NewRouter()
 	config := goconf.NewConfigFile()
 	config.AddOption("tokens", "iss0", keys.pubFile[0])
@@ -819,6 +850,11 @@ func (h *c18Run) observe(applied bool) string {
 		c.inbox = nil
 		c.mu.Unlock()
 		for _, w := range in {
+			if w.Type == "hello" && w.Hello != nil {
+				if sid, ok := h.pubSid[w.Hello.SessionId]; ok {
+					h.connSid[n] = sid
+				}
+			}
 			ms = append(ms, fmt.Sprintf("(%d, %s)", n, h.msgTerm(w)))
 		}
 	}
@@ -834,6 +870,116 @@ func (h *c18Run) uuidOf(num int) string {
 		return u
 	}
 	return fmt.Sprintf("nonexistent-%d", num)
+}
+
+// complete lets the media server answer creation tok
+func (h *c18Run) complete(tok int, res string) {
+	if res == "" {
+		res = "ok"
+	}
+	h.mcu.mu.Lock()
+	p := h.mcu.pending[tok]
+	h.mcu.mu.Unlock()
+	if p == nil {
+		return
+	}
+	before := h.activity.Load()
+	p.ch <- res
+	h.react(before)
+	for _, c := range h.conns {
+		if c.busy == tok {
+			c.busy = -1
+		}
+	}
+}
+
+// phasedClose starts the close of sess (trigger: the bye message / the expiry pass)
+// and freezes ProxySession.Close in the windows named by the slots, one after the
+// other, by holding the lock Close needs next; inside each window the creations
+// of the slots complete (the handler runs as far as it can), then the next lock
+// is taken and the current one released.  Nothing is observed before Close has
+// returned.
+func (h *c18Run) phasedClose(sid uint64, sess *ProxySession, slots []c18Slot, trigger func()) {
+	if sess == nil {
+		// nothing to close: no completions either (as in the model)
+		before := h.activity.Load()
+		trigger()
+		h.react(before)
+		return
+	}
+	used := map[string]bool{}
+	for _, sl := range slots {
+		if _, ok := c18WindowPhase[sl.W]; !ok {
+			h.t.Fatalf("unknown window %q", sl.W)
+		}
+		used[sl.W] = true
+	}
+	if used["remote"] {
+		// the read lock of the sessions list can only be taken once Close is under way
+		// (bye / expiry need the write lock first): step there through the window before
+		used["subs"] = true
+	}
+	var seq []string
+	for _, w := range c18Windows {
+		if used[w] {
+			seq = append(seq, w)
+		}
+	}
+	lock := func(w string) {
+		switch w {
+		case "list":
+			sess.clientLock.Lock()
+		case "ctx":
+			sess.publishersLock.Lock()
+		case "subs":
+			sess.remotePublishersLock.Lock()
+		case "remote":
+			// what IterateSessions / GetSession / PublisherDeleted hold while they run
+			h.proxy.sessionsLock.RLock()
+		}
+	}
+	unlock := func(w string) {
+		switch w {
+		case "list":
+			sess.clientLock.Unlock()
+		case "ctx":
+			sess.publishersLock.Unlock()
+		case "subs":
+			sess.remotePublishersLock.Unlock()
+		case "remote":
+			h.proxy.sessionsLock.RUnlock()
+		}
+	}
+	if len(seq) == 0 {
+		before := h.activity.Load()
+		trigger()
+		h.react(before)
+		return
+	}
+	lock(seq[0])
+	trigger()
+	// Close is under way once the session left the list
+	deadline := time.Now().Add(3 * time.Second)
+	for h.proxy.GetSession(sid) != nil && time.Now().Before(deadline) {
+		time.Sleep(200 * time.Microsecond)
+	}
+	if h.proxy.GetSession(sid) != nil {
+		h.notes["phased_close_not_started"]++
+	}
+	h.settle(3)
+	for i, w := range seq {
+		for _, sl := range slots {
+			if sl.W == w {
+				h.complete(sl.T, sl.R)
+			}
+		}
+		if i+1 < len(seq) {
+			lock(seq[i+1])
+		}
+		unlock(w)
+		h.settle(3)
+	}
+	h.notes["phased_close"]++
 }
 
 // returns the Coq term of the operation and of the observation; skipCase is set
@@ -939,6 +1085,31 @@ func (h *c18Run) exec(i int, o c18Op) (opTerm, obTerm string, skipCase bool) {
 			h.send(c, map[string]interface{}{"id": h.nextId(), "type": "payload", "payload": map[string]interface{}{"type": ty, "clientId": h.uuidOf(o.Id)}})
 		})
 	case "bye":
+		if len(o.In) > 0 {
+			opTerm = fmt.Sprintf("OByeIn %d %s", o.C, c18SlotsTerm(o.In))
+			applied = connOp(func(c *c18Conn) {
+				var sess *ProxySession
+				sid, bound := h.connSid[o.C]
+				if bound {
+					sess = h.proxy.GetSession(sid)
+					if sess != nil {
+						sess.clientLock.Lock()
+						attached := sess.client != nil
+						sess.clientLock.Unlock()
+						if !attached {
+							sess = nil
+						}
+					}
+				}
+				data, _ := json.Marshal(map[string]interface{}{"id": h.nextId(), "type": "bye"})
+				h.phasedClose(sid, sess, o.In, func() {
+					if err := c.ws.WriteMessage(websocket.TextMessage, data); err != nil {
+						h.notes["write_error"]++
+					}
+				})
+			})
+			break
+		}
 		opTerm = fmt.Sprintf("OBye %d", o.C)
 		applied = connOp(func(c *c18Conn) { h.send(c, map[string]interface{}{"id": h.nextId(), "type": "bye"}) })
 	case "unknown":
@@ -971,6 +1142,36 @@ func (h *c18Run) exec(i int, o c18Op) (opTerm, obTerm string, skipCase bool) {
 			h.settle(5)
 		}
 	case "expire":
+		if len(o.In) > 0 {
+			opTerm = fmt.Sprintf("OExpireIn %d %s", o.Sid, c18SlotsTerm(o.In))
+			sess := h.proxy.GetSession(uint64(o.Sid))
+			finished := make(chan struct{})
+			h.phasedClose(uint64(o.Sid), sess, o.In, func() {
+				go func() {
+					defer close(finished)
+					for try := 0; try < 40; try++ {
+						s := h.proxy.GetSession(uint64(o.Sid))
+						if s == nil {
+							break
+						}
+						s.lastUsed.Store(time.Now().Add(-sessionExpirationTime - 2*time.Second).UnixNano())
+						h.proxy.expireSessions()
+						if h.proxy.GetSession(uint64(o.Sid)) == nil {
+							break
+						}
+						time.Sleep(time.Millisecond)
+					}
+					h.activity.Add(1)
+				}()
+			})
+			select {
+			case <-finished:
+			case <-time.After(5 * time.Second):
+				h.notes["expiry_pass_stuck"]++
+			}
+			h.settle(3)
+			break
+		}
 		opTerm = fmt.Sprintf("OExpire %d", o.Sid)
 		// the session has not been used for longer than sessionExpirationTime, and the
 		// expiry pass runs (a late MarkUsed of a connection that just closed is repeated over)
@@ -997,19 +1198,7 @@ func (h *c18Run) exec(i int, o c18Op) (opTerm, obTerm string, skipCase bool) {
 			r, o.R = "MOk", "ok"
 		}
 		opTerm = fmt.Sprintf("OMcuDone %d %s", o.T, r)
-		h.mcu.mu.Lock()
-		p := h.mcu.pending[o.T]
-		h.mcu.mu.Unlock()
-		if p != nil {
-			before := h.activity.Load()
-			p.ch <- o.R
-			h.react(before)
-			for _, c := range h.conns {
-				if c.busy == o.T {
-					c.busy = -1
-				}
-			}
-		}
+		h.complete(o.T, o.R)
 	default:
 		opTerm = "OMcuLost"
 		h.t.Fatalf("unknown op kind %q", o.K)
@@ -1217,6 +1406,29 @@ func c18GenScriptCase(r *vrng, id int) *c18Case {
 			delete(live, s)
 		}
 	}
+	// creations that complete while the close of a session runs: any pending ones,
+	// in any of the windows, with any answer
+	inside := func() []c18Slot {
+		if len(pend) == 0 || !r.chance(60) {
+			return nil
+		}
+		var in []c18Slot
+		var rest []int
+		for _, t := range pend {
+			if r.chance(70) {
+				in = append(in, c18Slot{W: pick(r, c18Windows), T: t, R: pick(r, []string{"ok", "ok", "ok", "ok", "fail", "timeout"})})
+				for _, g := range conns {
+					if g.busy == t {
+						g.busy = -1
+					}
+				}
+			} else {
+				rest = append(rest, t)
+			}
+		}
+		pend = rest
+		return in
+	}
 	n := 8 + r.intn(22)
 	for i := 0; i < n; i++ {
 		x := r.intn(100)
@@ -1233,6 +1445,14 @@ func c18GenScriptCase(r *vrng, id int) *c18Case {
 					pend = pend[:len(pend)-1]
 					c.Ops = append(c.Ops, c18Op{K: "done", T: t, R: pick(r, []string{"ok", "ok", "ok", "ok", "fail", "timeout"})})
 					g.busy = -1
+				} else if r.chance(50) {
+					// the session goes on on a new connection while the media server is working
+					nc := nextConn
+					nextConn++
+					c.Ops = append(c.Ops, c18Op{K: "resume", C: nc, Sid: g.sid})
+					g.closed = true
+					conns[nc] = &gconn{sid: g.sid, busy: -1}
+					live[g.sid] = nc
 				}
 			}
 		case x < 34 && len(pend) > 0: // a creation completes
@@ -1253,9 +1473,11 @@ func c18GenScriptCase(r *vrng, id int) *c18Case {
 			c.Ops = append(c.Ops, c18Op{K: "cmd", C: liveConn(), Cmd: pick(r, []string{"streams", "streams", "other"}), Id: anyObj()})
 		case x < 66: // bye
 			cn := liveConn()
-			c.Ops = append(c.Ops, c18Op{K: "bye", C: cn})
 			if g, ok := conns[cn]; ok && g.sid > 0 && !g.closed && g.busy < 0 {
+				c.Ops = append(c.Ops, c18Op{K: "bye", C: cn, In: inside()})
 				closeSid(g.sid)
+			} else {
+				c.Ops = append(c.Ops, c18Op{K: "bye", C: cn})
 			}
 		case x < 72: // drop
 			cn := liveConn()
@@ -1280,7 +1502,11 @@ func c18GenScriptCase(r *vrng, id int) *c18Case {
 			}
 		case x < 85:
 			s := anySid()
-			c.Ops = append(c.Ops, c18Op{K: "expire", Sid: s})
+			if _, ok := live[s]; ok {
+				c.Ops = append(c.Ops, c18Op{K: "expire", Sid: s, In: inside()})
+			} else {
+				c.Ops = append(c.Ops, c18Op{K: "expire", Sid: s})
+			}
 			closeSid(s)
 		case x < 88:
 			c.Ops = append(c.Ops, c18Op{K: "mculost"})
@@ -1304,6 +1530,89 @@ func c18GenScriptCase(r *vrng, id int) *c18Case {
 		j := r.intn(len(pend))
 		c.Ops = append(c.Ops, c18Op{K: "done", T: pend[j], R: pick(r, []string{"ok", "ok", "fail"})})
 		pend = append(pend[:j], pend[j+1:]...)
+	}
+	return c
+}
+
+// sessions that end with creations in flight: 1-3 sessions, each with 0-2 objects and 1-3
+// creations held at the media server (every further one on a connection the session was
+// resumed on), then every session ends by bye or expiry with a random part of ALL held
+// creations (its own and the others') completing in random windows of its close, with any
+// answer; what is still held afterwards completes outside; at the end a fresh session
+// addresses every object number
+func c18GenCloseCase(r *vrng, id int) *c18Case {
+	c := &c18Case{Id: id, Family: "closing"}
+	nsess := 1 + r.intn(3)
+	type gs struct {
+		sid, conn int
+	}
+	var ss []*gs
+	nextConn, nextObj := 0, 0
+	var pend []int
+	for i := 0; i < nsess; i++ {
+		c.Ops = append(c.Ops, c18Op{K: "hello", C: nextConn, Tok: c18ValidTok(r)})
+		ss = append(ss, &gs{sid: i + 1, conn: nextConn})
+		nextConn++
+	}
+	kinds := []string{"create-pub", "create-pub", "create-sub"}
+	for _, g := range ss {
+		for j := r.intn(3); j > 0; j-- {
+			c.Ops = append(c.Ops, c18Op{K: "cmd", C: g.conn, Cmd: pick(r, kinds)}, c18Op{K: "done", T: nextObj, R: "ok"})
+			nextObj++
+		}
+	}
+	for _, g := range ss {
+		for j := 1 + r.intn(3); j > 0; j-- {
+			c.Ops = append(c.Ops, c18Op{K: "cmd", C: g.conn, Cmd: pick(r, kinds)})
+			pend = append(pend, nextObj)
+			nextObj++
+			// the message loop of g.conn is blocked now: the session goes on elsewhere
+			c.Ops = append(c.Ops, c18Op{K: "resume", C: nextConn, Sid: g.sid})
+			g.conn = nextConn
+			nextConn++
+		}
+	}
+	order := r.intn(2)
+	for i := range ss {
+		g := ss[i]
+		if order == 1 {
+			g = ss[len(ss)-1-i]
+		}
+		var in []c18Slot
+		var rest []int
+		for _, t := range pend {
+			if r.chance(60) {
+				in = append(in, c18Slot{W: pick(r, c18Windows), T: t, R: pick(r, []string{"ok", "ok", "ok", "ok", "ok", "fail", "timeout"})})
+			} else {
+				rest = append(rest, t)
+			}
+		}
+		pend = rest
+		// the order of the schedule is the order inside a window
+		for j := len(in) - 1; j > 0; j-- {
+			k := r.intn(j + 1)
+			in[j], in[k] = in[k], in[j]
+		}
+		if r.chance(50) {
+			c.Ops = append(c.Ops, c18Op{K: "bye", C: g.conn, In: in})
+		} else {
+			if r.chance(50) {
+				c.Ops = append(c.Ops, c18Op{K: "drop", C: g.conn})
+			}
+			c.Ops = append(c.Ops, c18Op{K: "expire", Sid: g.sid, In: in})
+		}
+		if r.chance(30) && len(pend) > 0 {
+			j := r.intn(len(pend))
+			c.Ops = append(c.Ops, c18Op{K: "done", T: pend[j], R: pick(r, []string{"ok", "ok", "fail"})})
+			pend = append(pend[:j], pend[j+1:]...)
+		}
+	}
+	for _, t := range pend {
+		c.Ops = append(c.Ops, c18Op{K: "done", T: t, R: "ok"})
+	}
+	c.Ops = append(c.Ops, c18Op{K: "hello", C: nextConn, Tok: c18ValidTok(r)})
+	for t := 0; t < nextObj; t++ {
+		c.Ops = append(c.Ops, c18Op{K: "payload", C: nextConn, Id: t, P: "end"})
 	}
 	return c
 }
@@ -1335,6 +1644,46 @@ func c18Directed() []*c18Case {
 			c18Op{K: "hello", C: 0, Tok: v()}, c18Op{K: "cmd", C: 0, Cmd: kind}, c18Op{K: "resume", C: 1, Sid: 1}, c18Op{K: "bye", C: 1},
 			c18Op{K: "done", T: 0, R: "fail"})
 	}
+	// the close of the session in its phases: the creation completes while ProxySession.Close
+	// is frozen in each window that can be forced on the real code (bye and expiry go through
+	// the same Close); afterwards a new session addresses the object
+	for _, kind := range []string{"create-pub", "create-sub"} {
+		for _, w := range c18Windows {
+			add("create-inside-bye/"+w+"/"+kind,
+				c18Op{K: "hello", C: 0, Tok: v()}, c18Op{K: "cmd", C: 0, Cmd: kind}, c18Op{K: "resume", C: 1, Sid: 1},
+				c18Op{K: "bye", C: 1, In: []c18Slot{{W: w, T: 0, R: "ok"}}},
+				c18Op{K: "hello", C: 2, Tok: v()}, c18Op{K: "payload", C: 2, Id: 0, P: "end"})
+			add("create-inside-expiry/"+w+"/"+kind,
+				c18Op{K: "hello", C: 0, Tok: v()}, c18Op{K: "cmd", C: 0, Cmd: kind}, c18Op{K: "drop", C: 0},
+				c18Op{K: "expire", Sid: 1, In: []c18Slot{{W: w, T: 0, R: "ok"}}},
+				c18Op{K: "hello", C: 1, Tok: v()}, c18Op{K: "payload", C: 1, Id: 0, P: "end"})
+		}
+	}
+	// several creations of the closing session (one per connection it was resumed from), one of
+	// another session, a failure and a timeout, spread over the windows of one close; the session
+	// already owns objects
+	add("create-inside-bye/mixed",
+		c18Op{K: "hello", C: 0, Tok: v()}, c18Op{K: "hello", C: 1, Tok: v()},
+		c18Op{K: "cmd", C: 0, Cmd: "create-pub"}, c18Op{K: "done", T: 0, R: "ok"},
+		c18Op{K: "cmd", C: 0, Cmd: "create-sub"}, c18Op{K: "done", T: 1, R: "ok"},
+		c18Op{K: "cmd", C: 0, Cmd: "create-pub"}, c18Op{K: "resume", C: 2, Sid: 1},
+		c18Op{K: "cmd", C: 2, Cmd: "create-sub"}, c18Op{K: "resume", C: 3, Sid: 1},
+		c18Op{K: "cmd", C: 3, Cmd: "create-pub"}, c18Op{K: "resume", C: 4, Sid: 1},
+		c18Op{K: "cmd", C: 4, Cmd: "create-sub"}, c18Op{K: "resume", C: 5, Sid: 1},
+		c18Op{K: "cmd", C: 1, Cmd: "create-pub"},
+		c18Op{K: "bye", C: 5, In: []c18Slot{{W: "ctx", T: 3, R: "ok"}, {W: "subs", T: 2, R: "ok"}, {W: "subs", T: 6, R: "ok"}, {W: "remote", T: 4, R: "fail"}, {W: "remote", T: 5, R: "ok"}}},
+		c18Op{K: "payload", C: 1, Id: 2, P: "end"}, c18Op{K: "payload", C: 1, Id: 5, P: "fwd"}, c18Op{K: "payload", C: 1, Id: 6, P: "end"},
+		c18Op{K: "cmd", C: 1, Cmd: "delete-pub", Id: 2})
+	add("create-inside-expiry/mixed",
+		c18Op{K: "hello", C: 0, Tok: v()}, c18Op{K: "hello", C: 1, Tok: v()},
+		c18Op{K: "cmd", C: 0, Cmd: "create-sub"}, c18Op{K: "done", T: 0, R: "ok"},
+		c18Op{K: "cmd", C: 0, Cmd: "create-sub"}, c18Op{K: "resume", C: 2, Sid: 1},
+		c18Op{K: "cmd", C: 2, Cmd: "create-pub"}, c18Op{K: "resume", C: 3, Sid: 1},
+		c18Op{K: "cmd", C: 3, Cmd: "create-pub"}, c18Op{K: "drop", C: 3},
+		c18Op{K: "cmd", C: 1, Cmd: "create-sub"},
+		c18Op{K: "expire", Sid: 1, In: []c18Slot{{W: "list", T: 2, R: "ok"}, {W: "ctx", T: 1, R: "ok"}, {W: "subs", T: 4, R: "ok"}, {W: "remote", T: 3, R: "timeout"}}},
+		c18Op{K: "payload", C: 1, Id: 1, P: "end"}, c18Op{K: "payload", C: 1, Id: 2, P: "end"}, c18Op{K: "cmd", C: 1, Cmd: "streams", Id: 4},
+		c18Op{K: "bye", C: 1, In: []c18Slot{{W: "remote", T: 9, R: "ok"}}})
 	add("delete-across-sessions",
 		c18Op{K: "hello", C: 0, Tok: v()}, c18Op{K: "hello", C: 1, Tok: v()},
 		c18Op{K: "cmd", C: 0, Cmd: "create-pub"}, c18Op{K: "done", T: 0, R: "ok"},
@@ -1432,6 +1781,8 @@ func TestVerifC18(t *testing.T) {
 			id := len(cases)
 			if i%5 < 2 {
 				cases = append(cases, c18GenTokenCase(r, id))
+			} else if i%10 == 4 {
+				cases = append(cases, c18GenCloseCase(r, id))
 			} else {
 				cases = append(cases, c18GenScriptCase(r, id))
 			}
@@ -1465,6 +1816,9 @@ func TestVerifC18(t *testing.T) {
 		accepted, refused, created := 0, 0, 0
 		for i, o := range c.Ops {
 			sink.count("op_" + o.K)
+			for _, sl := range o.In {
+				sink.count("completion_inside_close_" + sl.W)
+			}
 			if o.K == "hello" && o.Tok != nil {
 				sink.count("token_" + o.Tok.Class)
 				if strings.Contains(outs[i], "MHello") {
@@ -1494,5 +1848,5 @@ func TestVerifC18(t *testing.T) {
 	if env.replay == "" {
 		c18Stress(t, env, keys, sink)
 	}
-	sink.close("directed schedules + seeded token cases (valid tokens and 30 mutation classes) + seeded command scripts of 1-3 sessions on the real ProxyServer over websockets with a gated fake media server; non-trivial = at least one accepted hello and (an object created or a hello refused); distinct = distinct observation sequences")
+	sink.close("directed schedules (incl. creations completing inside each forcible window of ProxySession.Close) + seeded sessions ending with creations in flight + seeded token cases (valid tokens and 30 mutation classes) + seeded command scripts of 1-3 sessions on the real ProxyServer over websockets with a gated fake media server; non-trivial = at least one accepted hello and (an object created or a hello refused); distinct = distinct observation sequences")
 }
